@@ -34,6 +34,29 @@ def check(cx):
     r1.instance('a JOIN decided as creation creates the channel with the joiner as founder (C07 R7.1)')
     depends(cx, r1, 'C07', ('R7.1',), 'creation happens exactly for (!exists && quota) with new_on_user_join(own nick)',
             only=r'create-formula|create-args|no-create')
+    # the channel JOIN creates is the constructor's value: the handler neither edits it before storing it nor sets attributes of a
+    # channel (key, limit, topic, lists ..) - those change only through MODE / TOPIC
+    fj_ = cx.fn('process_join')
+    wj_ = cx.walk(fj_, key='census')
+    ATTRS = ('modes', 'topic', 'default_modes', 'preconfigured', 'creation_time', 'ban_info')
+    r1.instance('process_join stores the constructed channel unedited and writes no channel attribute')
+    for e in wj_.events:
+        tgt = None
+        if e.kind in ('assign', 'assignop') and not e.data.get('init'):
+            tgt = e.data['lhs']
+        elif e.kind == 'call' and e.data.get('args') and e.data['name'] in MUTATORS and not e.data.get('local'):
+            tgt = e.data['args'][0]
+        if not isinstance(tgt, tuple):
+            continue
+        rt = root_of(tgt)
+        pth = path_of(tgt)
+        fresh_edit = isinstance(rt, tuple) and rt[:1] == ('call',) and rt[1].split('::')[-1] == 'new_on_user_join'
+        attr_write = 'channels' in pth and any(a_ in pth[pth.index('channels') + 1:] for a_ in ATTRS)
+        if fresh_edit or attr_write:
+            fld_ = [a_ for a_ in pth if a_ in ATTRS + ('key', 'client_limit')]
+            r1.violation('process_join|channel-attribute-write|%s' % '.'.join(fld_[-2:] or ['?']), 'JOIN writes a channel attribute (%s): a user-created '
+                         'channel is not the plain constructor value / an existing channel is altered by a JOIN' % show_term(tgt)[:70],
+                         loc=cx.loc(e.node))
     fnew = cx.fn('new_on_user_join')
     UN = P('user_nick')
     wn = cx.walk(fnew, args=[UN], key='c16')
